@@ -474,6 +474,10 @@ class SymCtx(BaseCtx):
         self.depth = solver_depth  # number of frames currently on the solver
         self.vars = {}  # name -> z3 const
         self.timeout_ms = timeout_ms
+        self.nchoices = 0
+        self.forced = None  # (prefix values, depth): explore only paths whose first choices equal the prefix
+        self.probe_depth = None  # cut every path after this many choices (used to enumerate prefixes)
+        self.cut = False
 
     # ---- solver helpers --------------------------------------------------------------
     def _check(self, *assumptions):
@@ -601,6 +605,7 @@ class SymCtx(BaseCtx):
         self.stats.decisions += 1
         key = ("c", nm, n)
         if self.pos < len(self.prefix):
+            self.nchoices += 1
             d = self.prefix[self.pos]
             if d.kind != "c" or d.key != key:
                 raise HarnessError("replay diverged at choice %r (recorded %r)" % (key, d))
@@ -608,6 +613,19 @@ class SymCtx(BaseCtx):
             self.trail.append(d)
             return d.value
         dom = list(range(n)) if enabled is None else list(enabled)
+        idx = self.nchoices
+        if self.probe_depth is not None and idx >= self.probe_depth:
+            self.dead = self.cut = True
+            return dom[0] if dom else 0
+        if self.forced is not None:
+            fv, fd = self.forced
+            if idx < len(fv):
+                dom = [k for k in dom if k == fv[idx]]
+            elif idx < fd:
+                dom = []  # this path belongs to the job of a longer prefix
+            if not dom:
+                self.dead = True
+                return 0
         feas = [k for k in dom if self._check(v == k)]
         if not feas:
             self.dead = True
@@ -616,6 +634,7 @@ class SymCtx(BaseCtx):
             self.stats.forks += 1
         self._push(v == feas[0])
         self.trail.append(Decision("c", key, feas[0], feas[1:], False))
+        self.nchoices += 1
         return feas[0]
 
     # ---- monitors -----------------------------------------------------------------------
@@ -747,7 +766,8 @@ class ConcCtx(BaseCtx):
 
 
 class Explorer:
-    def __init__(self, scenario, max_paths=None, max_seconds=None, validate="all", solver_timeout_ms=20000):
+    def __init__(self, scenario, max_paths=None, max_seconds=None, validate="all", solver_timeout_ms=20000,
+                 forced=None, probe_depth=None):
         """scenario(ctx) -> None.  validate: 'all' | int (every n-th path) | 0."""
         self.scenario = scenario
         self.max_paths = max_paths
@@ -760,6 +780,9 @@ class Explorer:
         self.complete = False
         self.solver_timeout_ms = solver_timeout_ms
         self._unrepro = {}
+        self.forced = forced
+        self.probe_depth = probe_depth
+        self.prefixes = set()
 
     def _run_scenario(self, ctx):
         global _CTX
@@ -779,6 +802,8 @@ class Explorer:
         seen_sigs = set()
         while True:
             ctx = SymCtx(s, prefix, self.stats, depth)
+            ctx.forced = self.forced
+            ctx.probe_depth = self.probe_depth
             try:
                 self._run_scenario(ctx)
             except SymbolicLeak as e:
@@ -794,6 +819,15 @@ class Explorer:
                 self.errors.append("replay ended before the recorded prefix was consumed (nondeterminism)")
                 return self
             depth = ctx.depth
+            if self.forced is not None and ctx.nchoices < len(self.forced[0]):
+                # ended before consuming the forced prefix: belongs to the job of the shorter prefix
+                ctx.violations = []
+                ctx.dead = True
+            if self.probe_depth is not None:
+                if ctx.cut or not ctx.dead:
+                    self.prefixes.add(tuple(d.value for d in ctx.trail if d.kind == "c")[: self.probe_depth])
+                ctx.violations = []
+                ctx.dead = True
             if ctx.dead and not ctx.violations:
                 self.stats.dead_paths += 1
             else:
